@@ -532,7 +532,7 @@ impl<'a> Gen<'a> {
                 for _ in 0..k {
                     let prev_is_list = matches!(item.last(), Some(Blk::List(..)));
                     let b = match self.rng.below(10) {
-                        0..=3 if !prev_is_list => self.list(depth + 1),
+                        0..=3 if !prev_is_list || self.rng.chance(1, 3) => self.list(depth + 1),
                         4..=5 => self.para(),
                         6 if self.p.code => self.code(false),
                         7 if self.p.quotes && !item.last().map(is_ref_para).unwrap_or(false) => self.quote(depth + 1),
@@ -584,7 +584,7 @@ impl<'a> Gen<'a> {
                 }
                 0..=4 => self.para(),
                 5 if self.p.code => self.code(false),
-                6 if self.p.lists && depth < self.p.max_depth && !prev_list => self.list(depth + 1),
+                6 if self.p.lists && depth < self.p.max_depth && (!prev_list || self.rng.chance(1, 3)) => self.list(depth + 1),
                 7 if depth < self.p.max_depth => self.quote(depth + 1),
                 8 if !blocks.is_empty() => Blk::Rule(self.rng.below(3)),
                 9 if self.p.tables && !blocks.is_empty() => self.table(),
@@ -630,7 +630,7 @@ impl<'a> Gen<'a> {
                     let l = self.rng.range(1, 6) as u8;
                     self.heading(l)
                 }
-                9..=10 if self.p.lists && !prev_list && !prev_html => self.list(1),
+                9..=10 if self.p.lists && (!prev_list || self.rng.chance(1, 3)) && !prev_html => self.list(1),
                 11 if self.p.quotes && !prev_quote => self.quote(1),
                 12..=13 if self.p.code => {
                     let prev_ind = matches!(blocks.last(), Some(Blk::Code(_, _, ' ', _)));
@@ -663,6 +663,10 @@ impl<'a> Gen<'a> {
 pub struct Style {
     pub crlf: bool,
     pub rng: Rng,
+    /// marker (bullet char or number delimiter) of the list rendered last, and the one the next list must not use
+    /// (a list that directly follows a list of the same kind needs another marker to be a list of its own)
+    pub last_marker: Option<char>,
+    pub avoid: Option<char>,
 }
 
 fn render_inlines(v: &[Inl], st: &mut Style, defs: &mut Vec<(String, String)>) -> String {
@@ -763,6 +767,11 @@ fn render_blocks(blocks: &[Blk], st: &mut Style, defs: &mut Vec<(String, String)
     for (i, b) in blocks.iter().enumerate() {
         if i > 0 {
             lines.extend(blank(st));
+            if let (Blk::List(o1, ..), Blk::List(o2, ..)) = (&blocks[i - 1], b) {
+                if o1 == o2 {
+                    st.avoid = st.last_marker;
+                }
+            }
         }
         lines.extend(render_block(b, st, defs, top && i == 0));
     }
@@ -831,8 +840,11 @@ fn render_block(b: &Blk, st: &mut Style, defs: &mut Vec<(String, String)>, _firs
             })
             .collect(),
         Blk::List(ordered, start, tight, items) => {
-            let marker_char = *st.rng.pick(&['-', '*', '+']);
-            let ord_char = *st.rng.pick(&['.', ')']);
+            let avoid = st.avoid.take();
+            let bullets: Vec<char> = ['-', '*', '+'].into_iter().filter(|c| Some(*c) != avoid).collect();
+            let delims: Vec<char> = ['.', ')'].into_iter().filter(|c| Some(*c) != avoid).collect();
+            let marker_char = *st.rng.pick(&bullets);
+            let ord_char = *st.rng.pick(&delims);
             let mut lines = vec![];
             for (n, item) in items.iter().enumerate() {
                 if n > 0 && !*tight {
@@ -856,6 +868,13 @@ fn render_block(b: &Blk, st: &mut Style, defs: &mut Vec<(String, String)>, _firs
                             inner.push(String::new());
                         }
                     }
+                    if k > 0 {
+                        if let (Blk::List(o1, ..), Blk::List(o2, ..)) = (&item[k - 1], b) {
+                            if o1 == o2 {
+                                st.avoid = st.last_marker;
+                            }
+                        }
+                    }
                     inner.extend(render_block(b, st, defs, false));
                 }
                 for (k, l) in inner.iter().enumerate() {
@@ -868,6 +887,7 @@ fn render_block(b: &Blk, st: &mut Style, defs: &mut Vec<(String, String)>, _firs
                     }
                 }
             }
+            st.last_marker = Some(if *ordered { ord_char } else { marker_char });
             lines
         }
         Blk::Rule(style) => vec![match style {
@@ -906,6 +926,8 @@ pub fn render(doc: &Doc, seed: u64, crlf: bool) -> String {
     let mut st = Style {
         crlf,
         rng: Rng::new(seed ^ 0x5151),
+        last_marker: None,
+        avoid: None,
     };
     let mut defs = vec![];
     let mut lines: Vec<String> = vec![];
